@@ -11,6 +11,15 @@ Streams
             independent dense-DFT-matrix oracle
   indexmap  complex exponentials through the real fourier_resample: the populated output FFT bin (discrete observable)
             vs the executable index map `freqMap n m` — every (n, m, k) up to a bound (exhaustive)
+  reject    (c06_more.py) exact histories on one object that mix REJECTED calls of all four methods (every rejection reason, in place and
+            copying) with valid calls: after a rejected call array and calibration are bit-identical (snapshot + untouched twin), the
+            later valid calls satisfy the laws, every state and error kind equals the Lean model's
+  forms     (c06_more.py) the public ARGUMENT FORMS and keyword DEFAULTS (axes None/int/float/bool/tuple/list/NumPy ints, reducer letter
+            case, bin factors int/bool/NumPy int/list/tuple, out_shape with float entries, factors int/float/tuple/list, positional vs
+            keyword passing, omitted keywords, pad modes constant/edge/wrap/reflect/symmetric) vs Model/ResampleArgs.lean
+The hist stream also inserts rejected calls between its steps and snapshots every dataset the history leaves behind; float / hist
+inputs are drawn over value-structure classes (zero imaginary part in a complex dtype, zero real part, delta, constant, pure Nyquist,
+zeros, integer-valued) and complex data is judged for linearity over COMPLEX scalars (i*x included).
 """
 import itertools
 import warnings
@@ -43,21 +52,41 @@ MANIFEST_ENTRY = {
             "N_out/N_in rescale) by induction over the axis list: N-D mean/total, linearity, identity, round trip (complex; and "
             "real arrays with the `.real` steps under a per-stage no-Nyquist condition), and N-D calibration (centre/extent on "
             "every resampled axis, other axes untouched). Mean reducer = block sums / block volume (theorem); padding to a "
-            "smaller shape pads nothing. "
+            "smaller shape pads nothing. Growth round 5: the REAL-input path of the N-D operator (real part of the inverse transform, "
+            "then the rescale) preserves total and mean in every direction (also down-sampling, where the complex result is not real), "
+            "is linear over the real scalars and is the identity for unchanged shape; pad in ANY mode (arbitrary fill rule: constant, "
+            "edge, wrap, reflect, symmetric ...) followed by crop of the pad widths returns the original array; the factors= entry point "
+            "preserves the extent whatever round(n*f) gives; after any history of bin calls on an axis the calibration is that of one "
+            "binning by the product of the factors (block-centre coordinates over histories); an argument layer "
+            "(Model/ResampleArgs.lean: Python forms of axes / bin_factors / reducer / out_shape / factors, keyword defaults as structure "
+            "defaults, pad modes) with theorems that the axes forms agree, that bin(f) is the block sum over all axes returned as a new "
+            "dataset, and that over EVERY history of calls (raising or not) the object ends in the state reached by the calls that "
+            "returned normally (a raising call is a no-op). "
             "Tied to the code on every run by exact equality (bin/pad/crop on integer data), a Float run of the same definitions "
-            "against np.fft (tolerance 1e-9) and an exhaustive discrete index-map stream; the statement's clauses are evaluated "
-            "on the real code with exact block / dense-DFT oracles as the failing-input search.",
+            "against np.fft (tolerance 1e-9) and an exhaustive discrete index-map stream; histories with rejected calls (every "
+            "rejection reason of the four methods; bit-identical state after a rejected call, untouched twin, laws on the later valid "
+            "calls) and the public argument forms / defaults / pad modes are compared with the model call by call; the statement's "
+            "clauses are evaluated on the real code with exact block / dense-DFT oracles as the failing-input search.",
     "note": "Trusted: Lean kernel + propext/Classical.choice/Quot.sound; np.fft is assumed to compute the defining DFT sums "
             "(exercised by the Float stream); IEEE rounding is measured, not proved; N-D fourier_resample is modelled as a fold "
             "of the 1-D operator over the axes - that np.fft.fftn/ifftn is this separable composition is measured (Float "
             "stream), the N-D laws of the fold are proved; the N-D round trip resamples the axes back in reverse order (for "
             "the separable NumPy transform the order is immaterial; commutation of the fold steps is not proved); the "
-            "N-D mean theorem is for distinct axes; duplicate axes are not generated.",
+            "N-D mean theorem is for distinct axes; duplicate axes are not generated. That a raising call leaves the object "
+            "unchanged is a property of the code's statement order (all writes after the last raise): the model encodes it by returning "
+            "either an error or a new state, the reject / forms / hist streams measure it on every run (bit-identical snapshots); the "
+            "history theorem is about that model. The dtype (not the values) selects the real or the complex path: measured by the "
+            "value-structure classes of the float stream and the dtype-kind comparison with the model. np.pad's own modes are modelled "
+            "(padAxisSrc) and compared, not verified. String forms of numeric arguments, non-integral float axes and NumPy scalars as "
+            "a bare axes argument are modelled but not generated (behaviour there is incidental).",
     "technique": "Lean 4 proof (list/array algebra, index-map arithmetic, roots-of-unity sums over C) + model-vs-implementation correspondence",
 }
 RULE = ("a case is one operation (or one law instance) on one array; distinct non-trivial = distinct (stream, op, ndim, dtype kind, "
-        "axes pattern, parity pattern / divisibility pattern, reducer or up/down direction) with at least 2 elements")
-TRUSTED = ["np.fft.fftn/ifftn compute the defining DFT sums; np.pad / reshape / sum semantics (modelled as gathers and block sums)"]
+        "axes pattern, parity pattern / divisibility pattern, reducer or up/down direction) with at least 2 elements; reject / forms: "
+        "distinct (method, valid or rejection reason, in place?, ndim, previous step, dtype kind / set of keywords written)")
+TRUSTED = ["np.fft.fftn/ifftn compute the defining DFT sums; np.pad / reshape / sum semantics (modelled as gathers and block sums)",
+           "np.pad modes edge / wrap / reflect / symmetric as index maps (padAxisSrc), compared on every run",
+           "Python exception semantics: a statement that raises has no effect of its own; isinstance / int() / float() / str().lower() on the argument forms generated"]
 ASSUMPTIONS = [
     "every array handed to Dataset*.from_array / the array setter is drawn over memory-layout classes as well as dtypes and containers: C-contiguous, Fortran order, fully transposed and permuted views, negative strides (np.flip), step-sliced views of a larger buffer, read-only; the logical values (and therefore the model input) never depend on the layout",
     "calibration reaches the datasets through every route: float lists, Python int tuples and integer ndarrays via Dataset/Dataset2d/3d/4d/4dstem.from_array or via the origin/sampling property setters (35 % integer-typed)",
@@ -65,6 +94,9 @@ ASSUMPTIONS = [
     "float stream: tolerance |impl - model| <= 1e-9 * max(1, max|model|) on float64/complex128 data, 5e-4 on float32/complex64 data; law predicates use 1e-9 (5e-4) relative to max(1, max|x|)",
     "'cropping the pad widths' is read as crop(((before, -after), ...)) — the only reading under which Dataset.crop (start, stop) slices undo a pad; `-0` is why the code maps after == 0 to None",
     "round trip: 'no Nyquist-frequency content' is enforced by projecting out bin n/2 along every resampled even axis; up-sampling means m >= n on every resampled axis",
+    "a call that raises (bad reducer / factor / axes, both or neither of out_shape and factors, wrong lengths, negative pad widths ...) is read as 'not an operation': the statement's conservation clauses are judged over the history, so array, origin and sampling must be bit-identical after it (predicate `rejected-call-changed-state`); when a call this harness means to be rejected is accepted, the history ends there and only the model comparison reports it",
+    "complex dtypes are drawn with structured values (imaginary part exactly 0 everywhere, real part 0, a single non-zero entry, constant, pure Nyquist, zeros): the path fourier_resample takes must depend on the dtype only; complex data is judged for linearity over complex scalars, real data over real scalars (the code takes the real part)",
+    "forms stream: only argument forms the signatures' annotations / docstrings cover are generated as valid (integral floats as axes, NumPy integers inside tuples, list or tuple, any letter case of the reducer); n*f is exact (dyadic factors), ties x.5 included",
 ]
 EXPLANATION = ("Theorems in Props/C06.lean are about Model/Resample.lean (and Core/Dft.lean for the spectral part); every run executes "
                "the same definitions at Rat / Float against the real Dataset methods and compares.")
